@@ -7,6 +7,41 @@ KERNEL_NOTE = ('Trusted: Lean kernel; axioms propext/Classical.choice/Quot.sound
                'deterministic fakes on the Python side and by the recorded answers on the model side); kernel contracts are hypotheses; '
                'exact field arithmetic (IEEE rounding not modelled).')
 CHECKS = {
+ 'C02': {
+  'text': 'Proof (partial): the well-formedness invariant (every charge list has the length of the dimension it labels, every non-zero entry obeys the additive rule) is preserved by every '
+          'modelled public operation (orthonormalize MPS/MPO both modes incl. dummy bonds, +, -, @, apply_operator, zero_qnumbers, copy) for every kernel with the shape clause only, '
+          'and by compress under the output condition scale != 0 (a collapse example shows the condition cannot be dropped for arbitrary oracles; under the C12 norm/sort contracts and '
+          '0 <= tol < 1 at least one value is kept); by induction it holds in every reachable state of any history (run_wf*). Boundary charges are kept by orthonormalize for non-zero '
+          'states/operators (full, via C01) and by compress when the returned factors are non-zero. TDVP/DMRG steps and constructors are tied by correspondence only '
+          '(whole TDVP/DMRG calls are compared in C08-C10 incl. the wf flag; from_vector and graph->MPO in C03/C05).',
+  'note': KERNEL_NOTE + ' Only shape clauses of the QR/SVD kernels are needed for the invariant.',
+  'design_ref': 'DESIGN.md §7 C02',
+ },
+ 'C19': {
+  'text': 'Proof (partial by nature): over the functional history model, a step changes only its documented target or appends one object (step_frame), over any history a slot changes only at '
+          'steps naming it as target (history_frame), the write table agrees with the ownership table, and in the abstract allocation model no two objects ever share an array and '
+          'returned arrays are fresh (alloc_*; 13 theorems). Object identity and aliasing themselves live in CPython/NumPy: the tie is the correspondence, which after every step of random '
+          'histories compares the set of byte-changed pool slots and the np.shares_memory relation with the model, and a call table over all public functions (incl. OpGraph.add with '
+          'disjoint / colliding ids) comparing modified arguments and result aliasing with the table.',
+  'note': KERNEL_NOTE + ' Additionally trusted: the table of which NumPy primitives return fresh arrays is implicit in Heap.spec and validated only by observation.',
+  'design_ref': 'DESIGN.md §7 C19',
+ },
+ 'C14': {
+  'text': 'Proof (full in exact arithmetic): output sizes of Lanczos/Arnoldi are mutually consistent for full and early return (every oracle); under NormContract and a Hermitian map '
+          'the returned columns are orthonormal, alpha real, off-diagonals >= threshold > 0 and V^H A V = T, for the full run and for the shortened result after a breakdown; '
+          'Arnoldi likewise with an upper Hessenberg H for any map; fewer vectors are returned only if a residual norm fell below the threshold (10 theorems). '
+          'Tie to the code: exact correspondence under uninterpreted norm/eigh/exp/expm incl. steered breakdowns, m = 1, m > n.',
+  'note': KERNEL_NOTE + ' NormContract is an assumption about np.linalg.norm; finite-precision loss of orthogonality is outside the model.',
+  'design_ref': 'DESIGN.md §7 C14/C15',
+ },
+ 'C15': {
+  'text': 'Proof (partial): lowest Ritz value <= Rayleigh quotient of the start vector and >= every lower bound of the quadratic form; Ritz vectors orthonormal with Ritz values as Rayleigh '
+          'quotients; Hermitian Krylov exponential with imaginary time preserves the norm; with an exactly vanishing last residual the Ritz pairs are exact eigenpairs and the lowest one is the '
+          'smallest eigenvalue reachable from the start vector; Hermitian-branch exponential exact in spectral form (expm_exact_partial). Not proved: general (Arnoldi/expm) branch exactness and '
+          'identification with the power-series exponential (oracle + correspondence only).',
+  'note': KERNEL_NOTE + ' EighAt/ExpContract are assumptions about scipy eigh_tridiagonal / np.exp.',
+  'design_ref': 'DESIGN.md §7 C14/C15',
+ },
  'C01': {
   'text': 'Proof (full): for MPS and MPO, both modes, all L>=1, d, bond profiles and charge layouts over any RCLike field, for every dense-QR oracle satisfying the QR contract '
           '(incl. real diagonal of R): orthonormalize returns without error, the result is well formed (block sparse, charge lists of the right lengths), '
